@@ -192,12 +192,18 @@ Qed.
 
 (** * the cascade *)
 
+(* every annotation a live annotation targets is live *)
+Definition ann_refs_ok (s : store) : Prop :=
+  forall y a, get_ann s y = Some a -> forall lf, In lf (a_leaves a) ->
+    match lf with LAnn t | LAnnText t _ _ _ => get_ann s t <> None | _ => True end.
+
 Record Post (ex : nat -> nat -> bool) (c : nat) (s s' : store) : Prop := mkPost {
   P_inv : InvE ex s';
   P_wf : wf_targets s';
   P_len : length (anns s') = length (anns s);
   P_sub : forall x a, get_ann s' x = Some a -> get_ann s x = Some a;
   P_low : forall x, x < c -> get_ann s' x = get_ann s x;
+  P_closed : ann_refs_ok s -> ann_refs_ok s';
   P_frame : sets s' = sets s /\ ress s' = ress s /\ sidx s' = sidx s /\ ridx s' = ridx s
 }.
 
@@ -206,7 +212,7 @@ Proof. intros. constructor; auto. Qed.
 
 Lemma Post_trans ex c c' s s1 s2 : c <= c' -> Post ex c s s1 -> Post ex c' s1 s2 -> Post ex c s s2.
 Proof.
-  intros Hc [A1 A2 A3 A4 A5 (A6&A7&A8&A9)] [B1 B2 B3 B4 B5 (B6&B7&B8&B9)].
+  intros Hc [A1 A2 A3 A4 A5 AC (A6&A7&A8&A9)] [B1 B2 B3 B4 B5 BC (B6&B7&B8&B9)].
   constructor; auto; try congruence.
   - intros x Hx. rewrite B5 by lia. apply A5. exact Hx.
   - repeat split; congruence.
@@ -225,6 +231,31 @@ Proof.
   intros P x Hx. destruct (get_ann s' x) as [a|] eqn:E; [|reflexivity].
   apply (P_sub _ _ _ _ P) in E. congruence.
 Qed.
+
+(** * the relation between a store and a later one in which annotations may have lost data *)
+Definition later (s s' : store) : Prop :=
+  length (anns s') = length (anns s)
+  /\ forall y a', get_ann s' y = Some a' ->
+       exists a, get_ann s y = Some a /\ a_leaves a' = a_leaves a /\ incl (a_data a') (a_data a).
+
+Lemma later_refl s : later s s.
+Proof. split; [reflexivity|]. intros y a' H. exists a'. split; [exact H|]. split; [reflexivity|apply incl_refl]. Qed.
+Lemma later_trans s1 s2 s3 : later s1 s2 -> later s2 s3 -> later s1 s3.
+Proof.
+  intros (L1&A) (L2&B). split; [congruence|]. intros y a3 H3.
+  destruct (B y a3 H3) as (a2 & H2 & E2 & I2). destruct (A y a2 H2) as (a1 & H1 & E1 & I1).
+  exists a1. split; [exact H1|]. split; [congruence|eapply incl_tran; eassumption].
+Qed.
+Lemma Post_later ex c s s' : Post ex c s s' -> later s s'.
+Proof.
+  intros P. split; [apply (P_len _ _ _ _ P)|]. intros y a' H. exists a'.
+  split; [apply (P_sub _ _ _ _ P y a' H)|]. split; [reflexivity|apply incl_refl].
+Qed.
+Lemma later_wf s s' : later s s' -> wf_targets s -> wf_targets s'.
+Proof.
+  intros (_&A) Hwf y a' H. destruct (A y a' H) as (a & Ha & El & _). rewrite El. apply (Hwf y a Ha).
+Qed.
+
 
 (* members of the row of h in annotation_annotation_map are larger than h *)
 Lemma referrers_gt ex s h c : InvE ex s -> wf_targets s -> In c (rget (aam s) h) -> h < c.
@@ -335,6 +366,16 @@ Proof.
     + rewrite Hfin_anns, length_set_slot. apply (P_len _ _ _ _ P1).
     + exact Hsub.
     + intros x Hx. rewrite Hget. destruct (x =? h) eqn:E; [lia|]. apply (P_low _ _ _ _ P1). lia.
+    + intros Hrefs y a Hy lf Hlf. rewrite Hget in Hy. destruct (y =? h) eqn:Ey; [discriminate|].
+      pose proof (P_closed _ _ _ _ P1 Hrefs y a Hy lf Hlf) as H1.
+      assert (Hnot : on_ann h lf = true -> False).
+      { intros Hon. assert (Hin : In y (scan s1 (has_leaf (on_ann h)))).
+        { rewrite scan_scanl. apply scanl_In. exists a. split; [exact Hy|]. unfold has_leaf. apply existsb_exists. exists lf. tauto. }
+        change (scan s1 (has_leaf (on_ann h))) with (s_ann_anns s1 h) in Hin.
+        rewrite <- (I_aam ex s1 (P_inv _ _ _ _ P1)) in Hin. rewrite Hrow in Hin. destruct Hin. }
+      destruct lf; try exact I; rewrite Hget;
+        (match goal with |- (if ?t =? h then _ else _) <> None =>
+           destruct (t =? h) eqn:Et; [exfalso; apply Hnot; cbn [on_ann]; exact Et|exact H1] end).
     + destruct Hframe3 as (A1&A2&A3&A4). destruct (P_frame _ _ _ _ P1) as (B1&B2&B3&B4).
       unfold sfin. destruct (a_id a0); cbn [set_anns set_aidx sets ress sidx ridx]; repeat split; congruence.
   - intros a _. split; [rewrite Hget, Nat.eqb_refl; reflexivity|reflexivity].
